@@ -153,6 +153,29 @@ Sixth round (C20, C17, C19, C07; each agent was told what the machinery evidentl
   source while a result is read through public getters or `Display` is now `C07.panic` (`run_op_guarded`). `m2` (error message indexing
   `directories[0]`), `m3` (`latest()` indexing with the total count) and all of `seeded/C17-r6c17-m1/m2/m3` were caught as they were.
 
+Seventh round (C15 and C08 once more, agents told about every oracle built so far): 6 changes, 4 missed at first.
+
+* `seeded/C15-r7c15-m1` (designations validated by iterating a std `HashMap`: for a file with two designations that are bad for
+  different reasons the error reported depends on the randomised hash seed): the difference between the concurrent and the alone
+  execution was seen, but a violation that is itself random does not reproduce in a single fresh execution, so it ended as a harness
+  error. Added *repeat* replay files (`repeat 32`: the scenario is executed up to 32 times in the fresh process until the oracle fires;
+  executions that differ from one another are `C15.result_nondeterminism`), the *twin call* (every decode is done twice in a row on the
+  same thread and must render identically) and the corruption `desig_two_bad` (plus `desig_bad_char`, `desig_short`).
+* `seeded/C15-r7c15-m2` (extra directories from `ZONEINFO`, `ANDROID_ROOT`, `ANDROID_DATA`, read through `std::env::vars_os()`, i.e. the
+  `environ` block without any libc call): invisible to the system-call seam, and the environment actor only changed `TZ`, `TZDIR`, `LANG`,
+  `LC_ALL`. It now also sets and clears a list of 50 plausible variable names at once (`DECOYS`); whoever consults one opens other paths than
+  the alone execution (at baseline environment) and the reference resolver expect.
+* `seeded/C15-r7c15-m3` (the default reader turns an empty file into `io::Error::last_os_error()`, the thread's stale `errno`): the real
+  filesystem of the sandbox had no empty file among the ambient values. `/verif/ambient/` now holds an empty file, a non-TZif file, a
+  truncated zone and a directory; default settings and explicit settings over `std::fs::read` must agree on them, text of the I/O error
+  included (the canonical form of an I/O error now contains its text).
+* `seeded/C08-r7c08-m1` (`<=` for `<` in an inlined leap conversion: a file whose last transition lies exactly on a leap record and on
+  the rule's change instant is refused): the independent model took no position at an instant that is itself a leap record. It now
+  does - a record applies strictly after its own count, which is what "an inserted leap second shares the UTC value of the second that
+  follows it" (C12) pins down - and the generator sometimes puts a leap record exactly on (or one second around) the last transition.
+  `m2` (indicator pairs walked along the isstd vector only) and `m3` (explicit `+` on a rule time in a version-2 footer) were caught as
+  they were, `m3` thanks to the round-5 addition.
+
 Two-site breakages (`seeded/C07-duo2-m1`, `C08-duo2-m2`, `C17-duo2-m3`): each consists of two edits in different functions that are
 harmless alone (a relaxed range check in `TimeZoneRef::new` + a hoisted index in `find`; explicit enum discriminants + a numeric version
 comparison; an up-front validation in `find_n` + a reordered range check in the shared search). All three combinations were caught by the
